@@ -16,10 +16,15 @@ def combos(ctx, rnd):
             ('a/*/x', 0), ('*/*/', 0), ('**/x/', S), ('a/../a/x', 0), ('./a/x', 0), ('a//x', 0), ('**/**/x', S), ('***', L), ('***/', L), ('**/d/x', S | F),
             ('**/*', S | D | F), ('*/**', S), ('.d/**', S), ('**/.d/x', S), ('**/x', S | D),
             ('**/c/**', S), ('**/c/**/y', S), ('**/x/**', S), ('L/**/x/**', S), ('**/c/**', S | F), ('***/c/**', L), ('**/c/***', L), ('**/f', S), ('**/lf', S),
-            ('ld/*', 0), ('**/d/*', S), ('*/f', 0), ('**/r/**/x', S), ('**/**', S), ('r/**/c/**', S)]
+            ('ld/*', 0), ('**/d/*', S), ('*/f', 0), ('**/r/**/x', S), ('**/**', S), ('r/**/c/**', S),
+            # separators written with an escape: the walker splits on them, the matcher parses them inside one regex
+            ('a\\/*', 0), ('a\\/x', 0), ('*\\/x', 0), ('**\\/x', S), ('a\\/?*', 0), ('a\\/[!b]*', 0), ('.d\\/*', 0), ('a\\/**', S), ('a\\/.*', 0), ('a\\/', 0)]
     lists = [(['*'], 0, ['*/']), (['**'], S, ['**/']), (['*', 'a/*'], 0, ['a/']), (['**'], S, ['*/d/']), (['*'], N, None) if False else (['*', '!*/'], N, None),
              (['.*', '.d/*'], 0, ['*']), (['.d/*'], S, ['**/x']), (['a/.*', '**/x'], S, ['**/.y']), (['**/.*'], S | D, ['**/x']), (['.d/x'], S, ['*/x']),
-             (['*', '!a'], N, None), (['**'], S, ['**/x']), (['a/*', 'b/*'], 0, None), (['**', '!**/d/**'], S | N, None), (['*'], 0, ['.*']), (['**/x'], S, ['a/**'])]
+             (['*', '!a'], N, None), (['**'], S, ['**/x']),
+             # exclusions alone: NEGATEALL supplies the implicit match-everything inclusion, with and without GLOBSTAR from the caller
+             (['!x'], N | G.NEGATEALL, None), (['!a/*'], N | G.NEGATEALL, None), (['!**/x'], N | G.NEGATEALL | S, None), (['!*/'], N | G.NEGATEALL, None),
+             (['!x', '!a'], N | G.NEGATEALL | D, None), (['!x'], N, None), (['a/*', 'b/*'], 0, None), (['**', '!**/d/**'], S | N, None), (['*'], 0, ['.*']), (['**/x'], S, ['a/**'])]
     names = list(symfs.templates())
     out = []
     quick_t = ['flat', 'nest', 'link1', 'link2', 'hid', 'case', 'sib', 'dotlink', 'hid2']
